@@ -428,10 +428,11 @@ type Case struct {
 }
 
 type result struct {
-	v        *vcore.Violation
-	parsed   int
-	types    []string
-	excluded string
+	v             *vcore.Violation
+	parsed        int
+	types         []string
+	excluded      string
+	emptyDatagram bool
 }
 
 func run(c Case) (res result) {
@@ -514,7 +515,7 @@ func run(c Case) (res result) {
 	for _, m := range c.Msgs {
 		b := m.bytes()
 		if len(b) == 0 {
-			b = []byte{0}
+			res.emptyDatagram = true
 		}
 		if pm, err := message.Parse(b); err == nil {
 			res.parsed++
@@ -546,6 +547,8 @@ func run(c Case) (res result) {
 			switch state {
 			case "IO wait", "syscall", "sleep":
 				res.excluded = "slow-os-wait"
+			case "gone":
+				res.v = vcore.Violatef("server-stopped", "after datagram %x (%d bytes, mutations %v) the PFCP event loop has returned: the UPF no longer serves anybody", b[:min(len(b), 24)], len(b), m.Muts)
 			default:
 				res.v = vcore.Violatef("stuck:"+frame, "after datagram %x... the heartbeat stays unanswered; event loop is in state %q at %s", b[:min(len(b), 24)], state, frame)
 			}
@@ -592,6 +595,9 @@ func account(c Case, r result) {
 	if r.excluded != "" {
 		vcore.E.Exclude(r.excluded)
 		return
+	}
+	if r.emptyDatagram {
+		vcore.E.Class("empty_datagram")
 	}
 	if r.parsed > 0 {
 		vcore.E.Class("reached_handlers")
